@@ -139,13 +139,23 @@ impl<L: Language> Matcher<L> for Has<L> {
             if nd.matches(matcher) {
               None
             } else {
-              nd.children()
-                .find_map(|n| self.inner.match_node_with_env(n, env))
+              self.match_descendants(nd, env)
             }
           })
         }
       };
     }
+    self.match_descendants(node, env)
+  }
+}
+
+impl<L: Language> Has<L> {
+  /// search the descendants of `node`, bounded by `stop_by`
+  fn match_descendants<'tree, D: Doc<Lang = L>>(
+    &self,
+    node: Node<'tree, D>,
+    env: &mut Cow<MetaVarEnv<'tree, D>>,
+  ) -> Option<Node<'tree, D>> {
     match &self.stop_by {
       StopBy::Neighbor => node
         .children()
@@ -161,7 +171,7 @@ impl<L: Language> Matcher<L> for Has<L> {
             if n.matches(matcher) {
               None
             } else {
-              self.match_node_with_env(n, env)
+              self.match_descendants(n, env)
             }
           })
         })
